@@ -212,3 +212,66 @@ Theorem judge_agree_sound : forall c : dep_case,
     Concrete.judge c = Agree -> Concrete.spec_ok c = true /\ Concrete.agree c = true.
 Proof. exact Proofs.C28.judge_agree_sound. Qed.
 Print Assumptions judge_agree_sound.
+
+(* ---- Script() call histories: no memory ----
+   [run_history past l] is the model of a sequence of Script() calls [l] in a process that has
+   already answered the calls [past] (on whatever Deposit values: one long-lived value mutated
+   between calls, struct copies sharing the funding Utxo, equal outpoints behind different
+   pointers, the sweep assembly).  The funding outpoint is not even an input of the model. *)
+Theorem history_is_map : forall past l, run_history past l = map script_of l.
+Proof. exact Proofs.C28.history_is_map. Qed.
+Print Assumptions history_is_map.
+
+Theorem history_prefix_stable : forall past l l',
+    firstn (length l) (run_history past (l ++ l')) = run_history past l.
+Proof. exact Proofs.C28.history_prefix_stable. Qed.
+Print Assumptions history_prefix_stable.
+
+(* every script of a history is the deposit script of THAT call's parameters, so
+   [spend_characterisation] and its corollaries hold of it with that call's key hashes and
+   refund locktime, whatever was computed before or after *)
+Theorem history_call_script : forall past l n di s,
+    nth_error l n = Some di -> nth_error (run_history past l) n = Some (Some s) ->
+    exists b, hex_decode (trim0x (di_depositor di)) = Some b /\ length b = 20%nat /\
+              s = deposit_script_bytes (to_dep di b) /\
+              (arrays_ok di = true -> dep_wf (to_dep di b) /\ s = ser (deposit_ops (to_dep di b))).
+Proof. exact Proofs.C28.history_call_script. Qed.
+Print Assumptions history_call_script.
+
+(* the executable form: per call the property with that call's parameters, and the slice a call
+   returned reads the same after all later calls *)
+Theorem hspec_ok_sound : forall l,
+    History.hspec_ok l = true ->
+    forall e, In e l -> Concrete.spec_ok (he_case e) = true /\ he_late e = dc_script (he_case e).
+Proof. exact Proofs.C28.hspec_ok_sound. Qed.
+Print Assumptions hspec_ok_sound.
+
+Theorem hagree_sound : forall l,
+    History.hagree l = true ->
+    map (fun e => dc_script (he_case e)) l = map script_of (map (fun e => dc_in (he_case e)) l).
+Proof. exact Proofs.C28.hagree_sound. Qed.
+Print Assumptions hagree_sound.
+
+Theorem model_history_passes_spec : forall past l,
+    map (fun e => dc_script (he_case e)) l = run_history past (map (fun e => dc_in (he_case e)) l) ->
+    (forall e, In e l ->
+       arrays_ok (dc_in (he_case e)) = true /\ he_late e = dc_script (he_case e) /\
+       (dc_script (he_case e) = None -> dc_spends (he_case e) = []) /\
+       forall s, In s (dc_spends (he_case e)) ->
+         sp_engine s = spend_allowed (di_wpkh (dc_in (he_case e))) (di_rpkh (dc_in (he_case e)))
+                                     (di_lock (dc_in (he_case e)))
+                                     (table_fn (dc_hash160 (he_case e)) (sp_pk s)) (Concrete.good_of s)
+                                     (tx_lock (sp_tx s)) (Concrete.seq_of s)) ->
+    History.hspec_ok l = true.
+Proof. exact Proofs.C28.model_history_passes_spec. Qed.
+Print Assumptions model_history_passes_spec.
+
+Theorem judge_any_agree_sound : forall a,
+    judge_any a = Agree ->
+    match a with
+    | DOne c => Concrete.spec_ok c = true /\ Concrete.agree c = true
+    | DHist l => History.hspec_ok l = true /\ History.hagree l = true
+    end.
+Proof. exact Proofs.C28.judge_any_agree_sound. Qed.
+Print Assumptions judge_any_agree_sound.
+
